@@ -5,20 +5,17 @@ From Entrait.Proofs Require Import Base.
 Import ListNotations.
 Local Open Scope list_scope.
 
-Ltac destruct_ascii c := destruct c as [[] [] [] [] [] [] [] []].
-
 (** ** [parse_outer]: the attributes it takes, printed back, followed by the rest, are the input *)
 Lemma parse_outer_spec : forall ts attrs r, parse_outer ts = Ok (attrs, r) -> ts = print_attrs attrs ++ r.
 Proof.
   fix IH 1. intros ts attrs r H. destruct ts as [|t ts1]; [injection H as <- <-; reflexivity|].
   destruct t as [s|c|s|d g]; try (injection H as <- <-; reflexivity).
-  destruct (Ascii.eqb c "#"%char) eqn:Ec.
-  - apply Ascii.eqb_eq in Ec. subst c.
-    destruct ts1 as [|t2 ts2]; [discriminate H|].
-    destruct t2 as [s|c|s|d g]; try discriminate H. destruct d; try discriminate H.
-    cbn [parse_outer] in H. inv_ok H. destruct a as [more rest']. injection H0 as <- <-.
-    rewrite (IH _ _ _ E) at 1. reflexivity.
-  - revert H. destruct_ascii c; try (intros H; injection H as <- <-; reflexivity). discriminate Ec.
+  cbn [parse_outer] in H. destruct (Ascii.eqb c "#"%char) eqn:Ec; [|injection H as <- <-; reflexivity].
+  apply Ascii.eqb_eq in Ec. subst c.
+  destruct ts1 as [|t2 ts2]; [discriminate H|].
+  destruct t2 as [s|c|s|d g]; try discriminate H. destruct d; try discriminate H.
+  destruct (rbind_ok _ _ _ H) as [[more rest'] [E H2]]. cbv beta in H2. injection H2 as <- <-.
+  rewrite (IH _ _ _ E) at 1. reflexivity.
 Qed.
 
 Lemma print_attrs_app a b : print_attrs (a ++ b) = print_attrs a ++ print_attrs b.
@@ -28,15 +25,10 @@ Proof. unfold print_attrs. apply flat_map_app. Qed.
 Lemma parse_vis_spec ts : let '(v, r) := parse_vis ts in ts = v ++ r.
 Proof.
   destruct ts as [|t ts1]; [reflexivity|]. destruct t as [s|c|s|d g]; try reflexivity.
-  destruct (String.eqb s "pub") eqn:Es.
-  - apply String.eqb_eq in Es. subst s. destruct ts1 as [|t2 ts2]; [reflexivity|].
-    destruct t2 as [s|c|s|d g]; try reflexivity. destruct d; try reflexivity.
-    cbn [parse_vis]. destruct (restricted_head g); reflexivity.
-  - destruct s as [|c0 s0]; [reflexivity|].
-    destruct_ascii c0; try reflexivity.
-    destruct s0 as [|c1 s1]; [reflexivity|]. destruct_ascii c1; try reflexivity.
-    destruct s1 as [|c2 s2]; [reflexivity|]. destruct_ascii c2; try reflexivity.
-    destruct s2 as [|c3 s3]; [discriminate Es | reflexivity].
+  cbn [parse_vis]. destruct (String.eqb s "pub") eqn:Es; [|reflexivity].
+  apply String.eqb_eq in Es. subst s. destruct ts1 as [|t2 ts2]; [reflexivity|].
+  destruct t2 as [s|c|s|d g]; try reflexivity. destruct d; try reflexivity.
+  destruct (restricted_head g); reflexivity.
 Qed.
 
 (** ** [matched_braces_or_semi] *)
@@ -61,40 +53,31 @@ Proof.
   rewrite (take_item_spec _ _ _ E), Hs, app_assoc. reflexivity.
 Qed.
 
-(** the first token after the signature *)
-Definition starts_with_semi (ts : toks) : option toks :=
-  match ts with TP ";"%char :: r => Some r | _ => None end.
-
-Lemma starts_with_semi_spec ts r : starts_with_semi ts = Some r -> ts = pc ";" :: r.
-Proof.
-  destruct ts as [|t ts1]; [discriminate|]. destruct t as [s|c|s|d g]; try discriminate.
-  destruct_ascii c; try discriminate. intros H. injection H as <-. reflexivity.
-Qed.
+Lemma is_semi_spec t : is_semi t = true -> t = pc ";".
+Proof. destruct t as [s|c|s|d g]; try discriminate. cbn [is_semi]. intros H. apply Ascii.eqb_eq in H. subst c. reflexivity. Qed.
 
 (** ** one item *)
 Lemma parse_body_item_spec in_mod sigs pos ts it faithful rest :
   parse_body_item in_mod sigs pos ts = Ok (it, faithful, rest) ->
   faithful = true -> ts = print_body_item it ++ rest.
 Proof.
-  unfold parse_body_item. intros H Hf. inv_ok H. destruct a as [attrs r0].
+  unfold parse_body_item. intros H Hf. destruct (rbind_ok _ _ _ H) as [[attrs r0] [E H0]]. cbv beta in H0. clear H.
   pose proof (parse_outer_spec _ _ _ E) as Ho.
   pose proof (parse_vis_spec r0) as Hv. destruct (parse_vis r0) as [v r1].
   destruct ((if in_mod then match v with [] => false | _ => true end else true) && peek_fn r1).
   - destruct (find_sig (pos + (List.length ts - List.length r1)) sigs) as [sa|]; [|discriminate].
-    destruct (starts_with_semi (skipn (sa_len sa) r1)) as [r3|] eqn:Es.
-    + pose proof (starts_with_semi_spec _ _ Es) as Hr. rewrite Hr in H0.
-      injection H0 as <- _ <-. cbn [print_body_item].
-      rewrite Ho, Hv, <- (firstn_skipn (sa_len sa) r1) at 1. rewrite Hr. rewrite <- !app_assoc. reflexivity.
-    + assert (H1 : (let* (body, r3) := matched_braces_or_semi (skipn (sa_len sa) r1) in
-                    Ok (BFn attrs v (sa_sig sa) body, toks_eqb (print_sig (sa_sig sa)) (firstn (sa_len sa) r1), r3))
-                   = Ok (it, faithful, rest)).
-      { revert H0 Es. destruct (skipn (sa_len sa) r1) as [|t r2]; [intros H0 _; exact H0|].
-        destruct t as [s|c|s|d g]; try (intros H0 _; exact H0).
-        destruct_ascii c; try (intros H0 _; exact H0). discriminate. }
-      clear H0. destruct (rbind_ok _ _ _ H1) as [[body r3] [E0 H2]]. cbv beta in H2. injection H2 as <- <- <-.
+    destruct (skipn (sa_len sa) r1) as [|t r2] eqn:Es.
+    + destruct (rbind_ok _ _ _ H0) as [[body r3] [E0 H2]]. cbv beta in H2. injection H2 as <- <- <-.
       apply toks_eqb_eq in Hf. cbn [print_body_item]. rewrite Hf.
-      rewrite Ho, Hv, <- (firstn_skipn (sa_len sa) r1) at 1. rewrite (matched_spec _ _ _ E0).
+      rewrite Ho, Hv, <- (firstn_skipn (sa_len sa) r1) at 1. rewrite Es, (matched_spec _ _ _ E0).
       rewrite <- !app_assoc. reflexivity.
+    + destruct (is_semi t) eqn:Et.
+      * apply is_semi_spec in Et. subst t. cbn [tl] in H0. injection H0 as <- _ <-. cbn [print_body_item].
+        rewrite Ho, Hv, <- (firstn_skipn (sa_len sa) r1) at 1. rewrite Es. rewrite <- !app_assoc. reflexivity.
+      * destruct (rbind_ok _ _ _ H0) as [[body r3] [E0 H2]]. cbv beta in H2. injection H2 as <- <- <-.
+        apply toks_eqb_eq in Hf. cbn [print_body_item]. rewrite Hf.
+        rewrite Ho, Hv, <- (firstn_skipn (sa_len sa) r1) at 1. rewrite Es, (matched_spec _ _ _ E0).
+        rewrite <- !app_assoc. reflexivity.
   - destruct (rbind_ok _ _ _ H0) as [[tokens r2] [E0 H2]]. cbv beta in H2. injection H2 as <- _ <-. cbn [print_body_item].
     rewrite Ho, Hv at 1. rewrite (matched_spec _ _ _ E0). rewrite <- !app_assoc. reflexivity.
 Qed.
